@@ -50,6 +50,15 @@ inline std::vector<Scenario> scenarios(int T, int tiny_n, const std::vector<int>
         uint32_t sd[2] = {5, 6}; tfhe_random_generator_setSeed(sd, 2); TLweParams *tp = new_TLweParams(N, 1, 1e-9, 0.25); TGswParams *gp = new_TGswParams(1, 8, tp); TGswKey *k = new_TGswKey(gp); tGswKeyGen(k); TGswSample *g = new_TGswSample(gp); tGswSymEncryptInt(g, 1, 1e-9, k);
         std::string o = poly_bytes(g->all_sample[0].b) + poly_bytes(g->all_sample[1].b); delete_TGswSample(g); delete_TGswKey(k); delete_TGswParams(gp); delete_TLweParams(tp); return o; }});
     v.push_back({"K-karatsuba-products", T, [=] { prep_polys(T, 16); }, [](int t) { TorusPolynomial *r = new_TorusPolynomial(16); torusPolynomialMultKaratsuba(r, SH().ia[t], SH().tb[t]); for (int i = 0; i < 16; i++) r->coefsT[i] ^= 0; torusPolynomialAddMulRKaratsuba(r, SH().ia[t], SH().tb[t]); std::string o = poly_bytes(r); delete_TorusPolynomial(r); return o; }});
+    // shared INPUTS (a ciphertext that fans out to several gates evaluated by different threads; one operand polynomial used by all threads):
+    // an evaluation must not write its inputs, not even transiently
+    v.push_back({"H6-shared-input-ciphertexts", T, [=] { prep_key(tiny_n, T); }, [](int t) { Shared &s = SH(); LweSample *r = new_LweSample(s.S->lp); std::string o;
+        if (t == 0) { tfhe_bootstrap_FFT(r, s.S->bkFFT, gates::MU8, s.xin[0]); o = lwe_bytes(r, s.S->n); bootsMUX(r, s.xin[0], s.xin[1], s.xin[0], s.ck); o += lwe_bytes(r, s.S->n); }
+        else if (t & 1) { bootsCOPY(r, s.xin[0], s.ck); o = lwe_bytes(r, s.S->n); bootsXOR(r, s.xin[0], s.xin[1], s.ck); o += lwe_bytes(r, s.S->n); bootsNOT(r, s.xin[0], s.ck); o += lwe_bytes(r, s.S->n); }
+        else { bootsNAND(r, s.xin[1], s.xin[0], s.ck); o = lwe_bytes(r, s.S->n); bootsOR(r, s.xin[0], s.xin[0], s.ck); o += lwe_bytes(r, s.S->n); }
+        delete_LweSample(r); return o; }});
+    v.push_back({"K2-karatsuba-shared-operands", T, [=] { prep_polys(2, 32); }, [](int t) { TorusPolynomial *r = new_TorusPolynomial(32); std::string o;
+        torusPolynomialMultKaratsuba(r, SH().ia[0], SH().tb[t & 1]); o = poly_bytes(r); torusPolynomialAddMulRKaratsuba(r, SH().ia[t & 1], SH().tb[0]); o += poly_bytes(r); torusPolynomialSubMulRKaratsuba(r, SH().ia[0], SH().tb[0]); o += poly_bytes(r); delete_TorusPolynomial(r); return o; }});
     // thread churn: between the first FFT use of T0 and the first FFT use of T1, F short-lived threads are created, use the FFT once and exit
     // ("threads created and destroyed repeatedly", thread counts up to 64): per-thread state must not be recycled between live threads
     for (int F : churn) v.push_back({vf::fmt("H5-thread-churn-%d", F), 2, [=] { prep_polys(4, N); FLAGS()[0] = FLAGS()[1] = 0; }, [F](int t) {
